@@ -86,6 +86,11 @@ def _run0(ck, fb):
                                 r = cfg.reach_from(t, [dst], blocked_blocks=nxt)
                                 if s.bb not in r and s.bb in cfg.reach_from(t, [src]):
                                     ok_lm = True
+                if not (ok_en and ok_lm):
+                    # the re-validation may live in a bool helper of Service (extract-method): the action is reached only on its false edge,
+                    # the helper is handed the matching cut-off, and its truth table is  found && (!is_enable_timeout || last_modified > cut-off)
+                    h_en, h_lm = _stale_helper(ck, fb, t, s, cutoff)
+                    ok_en, ok_lm = ok_en or h_en, ok_lm or h_lm
                 # a skipped key must not end the scan: from every skip edge the loop's `next` is reached again (continue, not break/return)
                 nxt_all = [x.bb for x in t.calls(r'Iterator>::next$')]
                 loop_next = [n for n in nxt_all if s.bb in cfg.reach_from(t, [n]) and n in cfg.reach_from(t, [s.bb])]
@@ -259,7 +264,7 @@ def r13f(ck, fb):
     adds = [(x, s) for x in region for s in util.mut_calls_on_field(x, 'healthy_timeout_set', r'::add$')]
     ck.floor('R13f', 'healthy_timeout_set.add in do_refresh_process_range', len(adds), 1)
     # the drain side really re-validates with is_enable_timeout
-    reval = t.calls(re.escape(IM) + r'is_enable_timeout$')
+    reval = [sx for x in util.region(fb, t) for sx in x.calls(re.escape(IM) + r'is_enable_timeout$')]
     ck.require(len(reval) >= 1, 'R13f', 'time_check:revalidates', t.where(), 'time_check no longer re-validates drained keys with is_enable_timeout')
     sel_cluster = any(x.calls(re.escape(IM) + r'is_from_cluster$') for x in region)
     clears = []
@@ -309,3 +314,70 @@ def r13g(ck, fb):
                    'the clock of an instance that is subject to the heartbeat time-out is armed only when %s: an HTTP instance of an owned service that '
                    'arrives through a sync or snapshot (owner restarted, client already dead) is stored as local, never armed, and never expires' % extra,
                    'conditional on is_enable_timeout() only')
+
+
+def _stale_helper(ck, fb, t, s, cutoff):
+    """(clock-subject ok, last-heartbeat ok) established through a bool helper guarding the action site s in time_check"""
+    from rn.absint import enumerate_tables, Ref, SymObj, BV, Adt, Undecided, Unsupported, Panic, NeedAtom
+    for a in cfg.guard_atoms(t, s.bb):
+        if a[0] != 'call' or a[2] is not False:
+            continue
+        name = a[1] or ''
+        if not name.startswith(SV) or not fb.has(name):
+            continue
+        h = fb.get(name)
+        if h.local_ty(0) != 'bool':
+            continue
+        term = a[3]
+        cut = [l for l in range(1, t.argc + 1) if t.local_name(l) == cutoff]
+        tb = Taint(t, local_src=cut)
+        idx = [k for k, arg in enumerate(term.get('args') or []) if tb.op_tainted(arg)]
+        if not idx:
+            continue
+
+        def m_get(i, fr, tt, args):
+            v = i.env.atom('GET', 'std::option::Option<x>')
+            if v == 'None':
+                return Adt('std::option::Option', 'None', [])
+            return Adt('std::option::Option', 'Some', [Ref(obj=SymObj('inst'))], ['0'])
+
+        def m_en(i, fr, tt, args):
+            return BV.const(1, int(i.env.atom('EN', 'bool')))
+
+        def m_id(i, fr, tt, args):
+            return args[0]
+        models = {'std::collections::HashMap::<K, V, S, A>::get': m_get, IM + 'is_enable_timeout': m_en, 'std::ops::Deref::deref': m_id,
+                  '<std::sync::Arc<T, A> as std::ops::Deref>::deref': m_id}
+
+        def mk():
+            args = [Ref(obj=SymObj('self'))]
+            for k in range(1, h.argc):
+                args.append(BV.const(64, 1, True) if k in idx else Ref(obj=SymObj('key')))
+            return args
+        try:
+            atoms, rows = enumerate_tables(fb, h, mk, domains={'i64': [0, 2]}, call_models=models)
+        except (Undecided, Unsupported, Panic, NeedAtom, Exception):
+            continue
+        ck.analysed(h)
+        en_ok = lm_ok = bool(rows)
+        for (asg, r, calls) in rows:
+            if asg.get('GET') != 'Some':
+                continue
+            try:
+                got = bool(r.value())
+            except Exception:
+                return (False, False)
+            if asg.get('EN') is False and not got:
+                en_ok = False
+            if asg.get('EN') is True and asg.get('inst.last_modified_millis') == 2 and not got:
+                lm_ok = False
+            if asg.get('EN') is True and asg.get('inst.last_modified_millis') is None and not got:
+                pass
+        # both conditions must have been consulted at all
+        names = [k for (k, ty) in atoms]
+        if 'EN' not in names:
+            en_ok = False
+        if 'inst.last_modified_millis' not in names:
+            lm_ok = False
+        return (en_ok, lm_ok)
+    return (False, False)
